@@ -3,7 +3,7 @@
 # copies /repo/src + Cargo files to /tmp/m1, applies one textual replacement, runs the check against the copy
 set -e
 P=$1; F=$2; OLD=$3; NEW=$4
-rm -rf /tmp/m1; mkdir -p /tmp/m1; rsync -a --exclude target --exclude .git /repo/ /tmp/m1/
+rm -rf /tmp/m1; mkdir -p /tmp/m1; rsync -a --exclude target --exclude .git ${MUT_SRC:-/repo}/ /tmp/m1/
 python3 - "$F" "$OLD" "$NEW" <<'PY'
 import sys
 f,old,new=sys.argv[1:4]
